@@ -195,37 +195,38 @@ theorem sortParts_ne_nil {l : List (Part D)} (h : l ≠ []) : sortParts l ≠ []
     rw [he] at this
     simp at this
 
+theorem absorb_sound (p : Part D) (ps : List (Part D)) (s : S) (h : D.γ p.val s ∨ γl ps s) :
+    D.γ (absorb p ps).1.val s ∨ γl (absorb p ps).2 s := by
+  induction ps generalizing p with
+  | nil => exact h
+  | cons q qs ih =>
+    simp only [absorb]
+    split
+    · apply ih
+      rcases h with h | h
+      · exact Or.inl (D.join_l _ _ _ h)
+      · rcases (γl_cons q qs s).1 h with h1 | h1
+        · exact Or.inl (D.join_r _ _ _ h1)
+        · exact Or.inr h1
+    · exact h
+
+theorem absorb_ne (p : Part D) (ps : List (Part D)) : (absorb p ps).1 :: (absorb p ps).2 ≠ [] := by simp
+
 theorem mergeAdj_sound (l : List (Part D)) (s : S) (h : γl l s) : γl (mergeAdj l) s := by
   induction l with
   | nil => exact absurd h (γl_nil s)
   | cons p ps ih =>
     simp only [mergeAdj]
-    split
-    · rename_i he
-      rcases (γl_cons p ps s).1 h with h1 | h1
-      · exact (γl_cons _ _ s).2 (Or.inl h1)
-      · have := ih h1; rw [he] at this; exact absurd this (γl_nil s)
-    · rename_i q qs he
-      rcases (γl_cons p ps s).1 h with h1 | h1
-      · split
-        · exact (γl_cons _ _ s).2 (Or.inl (D.join_l _ _ _ h1))
-        · exact (γl_cons _ _ s).2 (Or.inl h1)
-      · have h2 := ih h1
-        rw [he] at h2
-        split
-        · rcases (γl_cons q qs s).1 h2 with h3 | h3
-          · exact (γl_cons _ _ s).2 (Or.inl (D.join_r _ _ _ h3))
-          · exact (γl_cons _ _ s).2 (Or.inr h3)
-        · exact (γl_cons _ _ s).2 (Or.inr h2)
+    apply (γl_cons _ _ s).2
+    apply absorb_sound
+    rcases (γl_cons p ps s).1 h with h1 | h1
+    · exact Or.inl h1
+    · exact Or.inr (ih h1)
 
 theorem mergeAdj_ne_nil {l : List (Part D)} (h : l ≠ []) : mergeAdj l ≠ [] := by
   match l with
   | [] => exact absurd rfl h
-  | p :: ps =>
-    simp only [mergeAdj]
-    split
-    · simp
-    · split <;> simp
+  | p :: ps => simp [mergeAdj]
 
 theorem updateParts_none {a : VP D} (hv : a.var = none) : updateParts a = a := by
   unfold updateParts; rw [hv]
